@@ -291,3 +291,42 @@ def write_evidence(pid, tier, seed, lean, stats, assumptions, trusted, violation
     tmp.write_text(json.dumps(ev, indent=1, default=str))
     tmp.replace(d / f'{pid}.json')
     return ev
+
+
+# --------------------------------------------------------------------------
+# number transport
+# --------------------------------------------------------------------------
+import struct
+from fractions import Fraction
+
+
+def fbits(x: float) -> str:
+    """float → protocol token `b<ieee754 bits as decimal>` (lossless)."""
+    return 'b' + str(struct.unpack('<Q', struct.pack('<d', float(x)))[0])
+
+
+def from_fbits(tok: str) -> float:
+    assert tok.startswith('b'), tok
+    return struct.unpack('<d', struct.pack('<Q', int(tok[1:])))[0]
+
+
+def frac(x) -> str:
+    """number → exact rational token `n` or `n/d` (Python floats are dyadic rationals)."""
+    f = Fraction(x)
+    return str(f.numerator) if f.denominator == 1 else f'{f.numerator}/{f.denominator}'
+
+
+def parse_frac(tok: str) -> Fraction:
+    return Fraction(tok)
+
+
+def close(a: float, b: float, rtol=1e-9, atol=1e-12) -> bool:
+    if a != a or b != b: return (a != a) and (b != b)
+    if a == b: return True
+    return abs(a - b) <= atol + rtol * max(abs(a), abs(b))
+
+
+def dyadic(rng, kmax=4096, emax=6, nonneg=False):
+    """a random dyadic rational k·2^-e as a float: every + − × on these is exact in binary64"""
+    k = rng.randrange(0 if nonneg else -kmax, kmax + 1)
+    return k / (1 << rng.randrange(0, emax + 1))
